@@ -249,6 +249,10 @@ Proof.
     set (s1 := MState _ _ _ _ _ _).
     assert (G1 : forall e0, get_ent s1 e0 = if decide (e0 = e) then PNil else get_ent s e0).
     { intros e0. apply (get_ent_set_ent s e PNil e0). }
+    assert (G1e : get_ent s1 e = PNil) by (rewrite G1, decide_True; reflexivity).
+    assert (G1n : forall e0, e0 <> e -> get_ent s1 e0 = get_ent s e0)
+      by (intros e0 N; rewrite G1, decide_False; auto).
+    clear G1.
     assert (W1 : WF s1).
     { wf_some H Ed. unfold WF, s1; simpl. fold s1. split; [exact Hri|]. split; [exact Hrb|].
       split; [exact Ham|]. split; [|split].
@@ -258,22 +262,451 @@ Proof.
         + exfalso. subst e0. destruct (HB _ _ H1) as (_ & X & _). congruence.
         + eauto.
       - intros k0 e0. rewrite lookup_insert_Some. intros [[<- <-]|[N Hk]].
-        + split; [eauto|]. split; [rewrite G1, decide_True by reflexivity; discriminate|].
+        + split; [eauto|]. split; [rewrite G1e; discriminate|].
           split; [intros R'; congruence|]. intros k' R'. eauto.
         + destruct (HB _ _ Hk) as (B1 & B2 & B3 & B4).
           assert (e0 <> e) by congruence.
-          rewrite G1, decide_False by assumption. auto.
+          rewrite G1n by assumption. auto.
       - intros k0 e0 R0. destruct (decide (k0 = k)) as [->|N].
-        + assert (e0 = e) by congruence. subst e0. rewrite lookup_insert, G1, decide_True by reflexivity.
+        + assert (e0 = e) by congruence. subst e0. rewrite lookup_insert, G1e.
           rewrite decide_False by discriminate. reflexivity.
         + assert (e0 <> e) by (intros ->; eauto).
-          rewrite lookup_insert_ne by congruence. rewrite G1, decide_False by assumption. auto. }
-    split; [exact W1|]. split; [reflexivity|]. split; [rewrite G1, decide_True; reflexivity|].
+          rewrite lookup_insert_ne by congruence. rewrite G1n by assumption. auto. }
+    split; [exact W1|]. split; [reflexivity|]. split; [exact G1e|].
     intros k'. rewrite (abs_lookup_dirty s1 _ k' W1 eq_refl), (abs_lookup_dirty s d k' H Ed).
     wf_some H Ed. destruct (decide (k' = k)) as [->|N].
     + rewrite lookup_insert. rewrite (HC _ _ R), decide_True by assumption.
-      unfold e_load. rewrite G1, decide_True; reflexivity.
+      unfold e_load. rewrite G1e; reflexivity.
     + rewrite lookup_insert_ne by congruence. destruct (d !! k') as [e0|] eqn:Hk; [|reflexivity].
-      destruct (HB _ _ Hk) as (_ & B2 & _). unfold e_load. rewrite G1, decide_False by congruence. reflexivity.
+      destruct (HB _ _ Hk) as (_ & B2 & _). unfold e_load. rewrite G1n by congruence. reflexivity.
   - exists s. rewrite G. auto.
+Qed.
+
+(* ---- dirtyLocked: characterisation of the fold over map_to_list read.m ---- *)
+Definition getp (es : gmap nat ptr) (e : nat) : ptr := default PNil (es !! e).
+
+Lemma getp_insert es e p e0 : getp (<[e := p]> es) e0 = if decide (e0 = e) then p else getp es e0.
+Proof.
+  unfold getp. destruct (decide (e0 = e)) as [->|N].
+  - rewrite lookup_insert. reflexivity.
+  - rewrite lookup_insert_ne by congruence. reflexivity.
+Qed.
+
+Lemma fold_dirtyLocked l : base.NoDup (map fst l) -> forall es d,
+  let r := fold_left dirtyLocked_body l (es, d) in
+  (forall e0, e0 ∈ map snd l -> getp es e0 = PNil -> getp r.1 e0 = PExpunged) /\
+  (forall e0, e0 ∉ map snd l \/ getp es e0 <> PNil -> getp r.1 e0 = getp es e0) /\
+  (forall k0 e0, (k0, e0) ∈ l -> r.2 !! k0 = match getp es e0 with PVal _ => Some e0 | _ => d !! k0 end) /\
+  (forall k0, k0 ∉ map fst l -> r.2 !! k0 = d !! k0).
+Proof.
+  induction l as [|[k1 e1] l IH]; intros ND es d.
+  - simpl. split; [|split; [|split]]; auto.
+    + intros e0 Hin. apply elem_of_nil in Hin. contradiction.
+    + intros k0 e0 Hin. apply elem_of_nil in Hin. contradiction.
+  - simpl in ND. apply stdpp.list.NoDup_cons in ND as [Hk1 ND].
+    assert (Hb : dirtyLocked_body (es, d) (k1, e1) =
+                 match getp es e1 with
+                 | PNil => (<[e1:=PExpunged]> es, d) | PExpunged => (es, d) | PVal _ => (es, <[k1:=e1]> d)
+                 end) by reflexivity.
+    cbn [fold_left]. rewrite Hb. clear Hb.
+    destruct (getp es e1) as [| |v1] eqn:G1.
+    + (* nil -> expunged *)
+      specialize (IH ND (<[e1:=PExpunged]> es) d). cbv zeta in IH |- *.
+      destruct IH as (I1 & I2 & I3 & I4).
+      set (r := fold_left dirtyLocked_body l (<[e1:=PExpunged]> es, d)) in *.
+      split; [|split; [|split]].
+      * intros e0 Hin G0. destruct (decide (e0 = e1)) as [->|N].
+        -- rewrite I2; [|right]; rewrite getp_insert, decide_True by reflexivity; [reflexivity|discriminate].
+        -- simpl in Hin. apply elem_of_cons in Hin as [?|Hin]; [contradiction|].
+           apply I1; [exact Hin|]. rewrite getp_insert, decide_False by assumption. exact G0.
+      * intros e0 Hor. assert (N : e0 <> e1).
+        { intros ->. destruct Hor as [Hn|Hn]; [|congruence]. apply Hn. simpl. apply elem_of_cons. auto. }
+        rewrite I2.
+        -- rewrite getp_insert, decide_False by assumption. reflexivity.
+        -- rewrite getp_insert, decide_False by assumption. destruct Hor as [Hn|Hn]; [left|right; exact Hn].
+           intros Hin. apply Hn. simpl. apply elem_of_cons. auto.
+      * intros k0 e0 Hin. apply elem_of_cons in Hin as [[= -> ->]|Hin].
+        -- rewrite I4 by exact Hk1. rewrite G1. reflexivity.
+        -- rewrite (I3 _ _ Hin). rewrite getp_insert. destruct (decide (e0 = e1)) as [->|N]; [|reflexivity].
+           rewrite G1. reflexivity.
+      * intros k0 Hn. simpl in Hn. apply not_elem_of_cons in Hn as [_ Hn]. auto.
+    + (* already expunged *)
+      specialize (IH ND es d). cbv zeta in IH |- *.
+      destruct IH as (I1 & I2 & I3 & I4).
+      set (r := fold_left dirtyLocked_body l (es, d)) in *.
+      split; [|split; [|split]].
+      * intros e0 Hin G0. destruct (decide (e0 = e1)) as [->|N]; [congruence|].
+        simpl in Hin. apply elem_of_cons in Hin as [?|Hin]; [contradiction|]. auto.
+      * intros e0 Hor. destruct (decide (e0 = e1)) as [->|N].
+        -- apply I2. right. congruence.
+        -- apply I2. destruct Hor as [Hn|Hn]; [left|right; exact Hn].
+           intros Hin. apply Hn. simpl. apply elem_of_cons. auto.
+      * intros k0 e0 Hin. apply elem_of_cons in Hin as [[= -> ->]|Hin].
+        -- rewrite I4 by exact Hk1. rewrite G1. reflexivity.
+        -- auto.
+      * intros k0 Hn. simpl in Hn. apply not_elem_of_cons in Hn as [_ Hn]. auto.
+    + (* value: copied to dirty *)
+      specialize (IH ND es (<[k1:=e1]> d)). cbv zeta in IH |- *.
+      destruct IH as (I1 & I2 & I3 & I4).
+      set (r := fold_left dirtyLocked_body l (es, <[k1:=e1]> d)) in *.
+      split; [|split; [|split]].
+      * intros e0 Hin G0. destruct (decide (e0 = e1)) as [->|N]; [congruence|].
+        simpl in Hin. apply elem_of_cons in Hin as [?|Hin]; [contradiction|]. auto.
+      * intros e0 Hor. destruct (decide (e0 = e1)) as [->|N].
+        -- apply I2. right. congruence.
+        -- apply I2. destruct Hor as [Hn|Hn]; [left|right; exact Hn].
+           intros Hin. apply Hn. simpl. apply elem_of_cons. auto.
+      * intros k0 e0 Hin. apply elem_of_cons in Hin as [[= -> ->]|Hin].
+        -- rewrite I4 by exact Hk1. rewrite G1, lookup_insert. reflexivity.
+        -- rewrite (I3 _ _ Hin). assert (k0 <> k1).
+           { intros ->. apply Hk1. change (map fst l) with (fst <$> l).
+             apply (elem_of_list_fmap_1 fst l (k1, e0)). exact Hin. }
+           rewrite lookup_insert_ne by congruence. reflexivity.
+      * intros k0 Hn. simpl in Hn. apply not_elem_of_cons in Hn as [N Hn].
+        rewrite I4 by exact Hn. rewrite lookup_insert_ne by congruence. reflexivity.
+Qed.
+
+(* "if !read.amended { m.dirtyLocked(); m.read.Store(readOnly{m: read.m, amended: true}) }" *)
+Definition amend (s : mstate) : mstate :=
+  let s' := dirtyLocked s in MState (ents s') (next_e s') (read_m s') true (dirty s') (misses s').
+
+Lemma amend_spec s : WF s -> amended s = false ->
+  WF (amend s) /\ amended (amend s) = true /\ read_m (amend s) = read_m s /\
+  (forall k, abs_lookup (amend s) k = abs_lookup s k).
+Proof.
+  intros H Ham. destruct (dirty s) as [d0|] eqn:Ed.
+  { wf_some H Ed. congruence. }
+  unfold amend, dirtyLocked. rewrite Ed.
+  pose proof (fold_dirtyLocked (map_to_list (read_m s)) (NoDup_fst_map_to_list _) (ents s) ∅) as F.
+  cbv zeta in F. destruct (fold_left dirtyLocked_body (map_to_list (read_m s)) (ents s, ∅)) as [es d] eqn:EF.
+  cbn [fst snd] in F. destruct F as (F1 & F2 & F3 & F4). cbn [ents next_e read_m amended dirty misses].
+  set (s1 := MState es (next_e s) (read_m s) true (Some d) (misses s)).
+  wf_none H Ed.
+  assert (P1 : forall k e, read_m s !! k = Some e -> get_ent s e = PNil -> get_ent s1 e = PExpunged).
+  { intros k e R G. apply F1; [|exact G]. change (map snd (map_to_list (read_m s))) with (snd <$> map_to_list (read_m s)).
+    apply (elem_of_list_fmap_1 snd _ (k, e)). apply elem_of_map_to_list. exact R. }
+  assert (P2 : forall e, get_ent s e <> PNil -> get_ent s1 e = get_ent s e).
+  { intros e G. apply F2. right. exact G. }
+  assert (P3 : forall k e, read_m s !! k = Some e ->
+            d !! k = match get_ent s e with PVal _ => Some e | _ => None end).
+  { intros k e R. rewrite (F3 k e) by (apply elem_of_map_to_list; exact R).
+    change (getp (ents s) e) with (get_ent s e). rewrite lookup_empty. destruct (get_ent s e); reflexivity. }
+  assert (P4 : forall k, read_m s !! k = None -> d !! k = None).
+  { intros k R. rewrite F4; [apply lookup_empty|].
+    change (map fst (map_to_list (read_m s))) with (fst <$> map_to_list (read_m s)).
+    intros Hin. apply elem_of_list_fmap in Hin as ([k' e'] & -> & Hin).
+    apply elem_of_map_to_list in Hin. simpl in R. congruence. }
+  assert (Dk : forall k e, d !! k = Some e -> read_m s !! k = Some e /\ exists v, get_ent s e = PVal v).
+  { intros k e Hk. destruct (read_m s !! k) as [e'|] eqn:R.
+    - rewrite (P3 _ _ R) in Hk. destruct (get_ent s e') eqn:G; try discriminate. injection Hk as ->. eauto.
+    - rewrite (P4 _ R) in Hk. discriminate. }
+  clear F1 F2 F3 F4 EF.
+  assert (W1 : WF s1).
+  { unfold WF, s1; simpl; fold s1. split; [exact Hri|]. split; [exact Hrb|]. split; [reflexivity|].
+    split; [|split].
+    - intros k1 k2 e H1 H2. apply Dk in H1 as [H1 _]. apply Dk in H2 as [H2 _]. eauto.
+    - intros k e Hk. apply Dk in Hk as [R [v G]]. split; [eauto|].
+      assert (G1 : get_ent s1 e = PVal v) by (rewrite P2; congruence).
+      split; [congruence|]. split; [congruence|]. intros k' R'. eauto.
+    - intros k e R. rewrite (P3 _ _ R). destruct (get_ent s e) eqn:G.
+      + rewrite (P1 _ _ R G), decide_True; reflexivity.
+      + exfalso. eapply HE; eauto.
+      + rewrite P2, G by congruence. rewrite decide_False by discriminate. reflexivity. }
+  split; [exact W1|]. split; [reflexivity|]. split; [reflexivity|].
+  intros k. rewrite (abs_lookup_dirty s1 d k W1 eq_refl), (abs_lookup_clean s k Ham).
+  destruct (read_m s !! k) as [e|] eqn:R.
+  - rewrite (P3 _ _ R). unfold e_load. destruct (get_ent s e) eqn:G; try reflexivity.
+    rewrite P2, G by congruence. reflexivity.
+  - rewrite (P4 _ R). reflexivity.
+Qed.
+
+(* "m.dirty[key] = newEntry(value)" for a key that is not in read.m *)
+Lemma insert_fresh_spec s d k v : WF s -> dirty s = Some d -> read_m s !! k = None ->
+  let s' := MState (<[next_e s := PVal v]> (ents s)) (S (next_e s)) (read_m s) (amended s)
+                   (Some (<[k := next_e s]> d)) (misses s) in
+  WF s' /\ forall k', abs_lookup s' k' = if decide (k' = k) then Some v else abs_lookup s k'.
+Proof.
+  intros H Ed R s'.
+  assert (Ge : get_ent s' (next_e s) = PVal v).
+  { unfold get_ent, s'; simpl. rewrite lookup_insert. reflexivity. }
+  assert (Gn : forall e0, e0 <> next_e s -> get_ent s' e0 = get_ent s e0).
+  { intros e0 N. unfold get_ent, s'; simpl. rewrite lookup_insert_ne by congruence. reflexivity. }
+  assert (W : WF s').
+  { wf_some H Ed. unfold WF, s'; simpl; fold s'. split; [exact Hri|].
+    split; [intros k0 e0 R0; apply Hrb in R0; lia|]. split; [exact Ham|]. split; [|split].
+    - intros k1 k2 e0. rewrite !lookup_insert_Some.
+      intros [[<- <-]|[N1 H1]] [[<- E]|[N2 H2]]; auto.
+      + exfalso. destruct (HB _ _ H2) as (X & _). lia.
+      + exfalso. subst e0. destruct (HB _ _ H1) as (X & _). lia.
+      + eauto.
+    - intros k0 e0. rewrite lookup_insert_Some. intros [[<- <-]|[N Hk]].
+      + split; [lia|]. split; [congruence|]. split; [eauto|].
+        intros k' R'. apply Hrb in R'. lia.
+      + destruct (HB _ _ Hk) as (B1 & B2 & B3 & B4).
+        rewrite Gn by lia. split; [lia|]. auto.
+    - intros k0 e0 R0. assert (k0 <> k) by congruence. pose proof (Hrb _ _ R0).
+      rewrite lookup_insert_ne by congruence. rewrite Gn by lia. auto. }
+  split; [exact W|]. intros k'.
+  rewrite (abs_lookup_dirty s' _ k' W eq_refl). destruct (decide (k' = k)) as [->|N].
+  - rewrite lookup_insert. unfold e_load. rewrite Ge. reflexivity.
+  - rewrite lookup_insert_ne by congruence. rewrite (abs_lookup_dirty s d k' H Ed).
+    destruct (d !! k') as [e0|] eqn:Hk; [|reflexivity].
+    wf_some H Ed. destruct (HB _ _ Hk) as (B1 & _). unfold e_load. rewrite Gn by lia. reflexivity.
+Qed.
+
+Lemma insert_new_spec s k v : WF s -> read_m s !! k = None ->
+  exists s', insert_new s k v = Ok s' /\ WF s' /\
+    forall k', abs_lookup s' k' = if decide (k' = k) then Some v else abs_lookup s k'.
+Proof.
+  intros H R. unfold insert_new. destruct (amended s) eqn:Ham.
+  - destruct (dirty s) as [d|] eqn:Ed.
+    2:{ wf_none H Ed. congruence. }
+    unfold new_entry, dirty_insert. cbn [ents next_e read_m amended dirty misses]. rewrite Ed.
+    eexists. split; [reflexivity|]. apply insert_fresh_spec; auto.
+  - change (MState (ents (dirtyLocked s)) (next_e (dirtyLocked s)) (read_m (dirtyLocked s)) true
+                   (dirty (dirtyLocked s)) (misses (dirtyLocked s))) with (amend s).
+    destruct (amend_spec s H Ham) as (W1 & Ham1 & R1 & A1).
+    destruct (dirty (amend s)) as [d1|] eqn:Ed1.
+    2:{ wf_none W1 Ed1. congruence. }
+    unfold new_entry, dirty_insert. cbn [ents next_e read_m amended dirty misses]. rewrite Ed1.
+    eexists. split; [reflexivity|].
+    destruct (insert_fresh_spec (amend s) d1 k v W1 Ed1) as [W2 A2]; [rewrite R1; exact R|].
+    split; [exact W2|]. intros k'. rewrite A2, A1. reflexivity.
+Qed.
+
+(* ---- "delete(m.dirty, key)" for a key that is not in read.m ---- *)
+Lemma dirty_delete_spec s d k : WF s -> dirty s = Some d -> read_m s !! k = None ->
+  WF (dirty_delete s k) /\ amended (dirty_delete s k) = amended s /\ ents (dirty_delete s k) = ents s /\
+  (forall k', abs_lookup (dirty_delete s k) k' = if decide (k' = k) then None else abs_lookup s k') /\
+  (forall e, d !! k = Some e -> unref (dirty_delete s k) e).
+Proof.
+  intros H Ed R. unfold dirty_delete. rewrite Ed. set (s1 := MState _ _ _ _ _ _).
+  assert (W : WF s1).
+  { wf_some H Ed. unfold WF, s1; simpl. split; [exact Hri|]. split; [exact Hrb|]. split; [exact Ham|].
+    split; [|split].
+    - intros k1 k2 e. rewrite !lookup_delete_Some. intros [_ H1] [_ H2]. eauto.
+    - intros k0 e. rewrite lookup_delete_Some. intros [_ Hk]. apply (HB _ _ Hk).
+    - intros k0 e R0. assert (k <> k0) by congruence. rewrite lookup_delete_ne by assumption.
+      apply (HC _ _ R0). }
+  split; [exact W|]. split; [reflexivity|]. split; [reflexivity|]. split.
+  - intros k'. rewrite (abs_lookup_dirty s1 _ k' W eq_refl). destruct (decide (k' = k)) as [->|N].
+    + rewrite lookup_delete. reflexivity.
+    + rewrite lookup_delete_ne by congruence. rewrite (abs_lookup_dirty s d k' H Ed). reflexivity.
+  - intros e Hk. wf_some H Ed. destruct (HB _ _ Hk) as (_ & _ & _ & B4). split.
+    + intros k' R'. change (read_m s !! k' = Some e) in R'. rewrite (B4 _ R') in R'. congruence.
+    + intros d' k' Ed'. change (Some (delete k d) = Some d') in Ed'. injection Ed' as <-. rewrite lookup_delete_Some. intros [N Hk'].
+      apply N. eauto.
+Qed.
+
+(* ================= the methods ================= *)
+
+Lemma Load_spec s k : WF s ->
+  WF (Load s k).1 /\ (Load s k).2 = abs_lookup s k /\ forall k', abs_lookup (Load s k).1 k' = abs_lookup s k'.
+Proof.
+  intros H. unfold Load. destruct (read_m s !! k) as [e|] eqn:R.
+  - simpl. split; [exact H|]. split; [|reflexivity]. unfold abs_lookup, reach. rewrite R. reflexivity.
+  - destruct (amended s) eqn:Ham.
+    + destruct (missLocked_spec s H Ham) as (W & A & E & _). cbv zeta.
+      destruct (dirty_lookup s k) as [e|] eqn:D; simpl; (split; [exact W|]; split; [|exact A]).
+      * unfold abs_lookup, reach. rewrite R, Ham, D. apply e_load_ext. exact E.
+      * unfold abs_lookup, reach. rewrite R, Ham, D. reflexivity.
+    + simpl. split; [exact H|]. split; [|reflexivity]. unfold abs_lookup, reach. rewrite R, Ham. reflexivity.
+Qed.
+
+Lemma dirty_lookup_Some s k e : WF s -> dirty_lookup s k = Some e ->
+  amended s = true /\ get_ent s e <> PExpunged /\ (read_m s !! k = None -> exists v, get_ent s e = PVal v).
+Proof.
+  intros H. unfold dirty_lookup. destruct (dirty s) as [d|] eqn:Ed; [|discriminate].
+  intros Hk. wf_some H Ed. destruct (HB _ _ Hk) as (_ & B2 & B3 & _). auto.
+Qed.
+
+Lemma Store_spec s k v : WF s -> exists s', Store s k v = Ok s' /\ WF s' /\
+  forall k', abs_lookup s' k' = if decide (k' = k) then Some v else abs_lookup s k'.
+Proof.
+  intros H. unfold Store. destruct (read_m s !! k) as [e|] eqn:R.
+  - assert (Hr : reach s k = Some e) by (unfold reach; rewrite R; reflexivity).
+    destruct (get_ent s e) eqn:G.
+    + eexists. split; [reflexivity|]. split.
+      * apply WF_set_ent; [exact H|congruence|discriminate|left; eauto].
+      * intros k'. apply (abs_lookup_set_ent s e (PVal v) k k' H Hr).
+    + destruct (unexpunge_spec s k e H R) as (s1 & U & W1 & R1 & G1 & A1). rewrite U. simpl.
+      rewrite G in G1. eexists. split; [reflexivity|]. split.
+      * apply WF_set_ent; [exact W1|congruence|discriminate|left; eauto].
+      * intros k'. rewrite (abs_lookup_set_ent s1 e (PVal v) k k' W1).
+        -- rewrite A1. reflexivity.
+        -- unfold reach. rewrite R1, R. reflexivity.
+    + eexists. split; [reflexivity|]. split.
+      * apply WF_set_ent; [exact H|congruence|discriminate|left; eauto].
+      * intros k'. apply (abs_lookup_set_ent s e (PVal v) k k' H Hr).
+  - destruct (dirty_lookup s k) as [e|] eqn:D.
+    + destruct (dirty_lookup_Some s k e H D) as (Ham & G & _).
+      assert (Hr : reach s k = Some e) by (unfold reach; rewrite R, Ham; exact D).
+      eexists. split; [reflexivity|]. split.
+      * apply WF_set_ent; [exact H|exact G|discriminate|left; eauto].
+      * intros k'. apply (abs_lookup_set_ent s e (PVal v) k k' H Hr).
+    + apply insert_new_spec; assumption.
+Qed.
+
+Lemma LoadOrStore_spec s k v : WF s -> exists s' a l, LoadOrStore s k v = Ok (s', a, l) /\ WF s' /\
+  match abs_lookup s k with
+  | Some x => a = x /\ l = true /\ forall k', abs_lookup s' k' = abs_lookup s k'
+  | None => a = v /\ l = false /\ forall k', abs_lookup s' k' = if decide (k' = k) then Some v else abs_lookup s k'
+  end.
+Proof.
+  intros H. unfold LoadOrStore. destruct (read_m s !! k) as [e|] eqn:R.
+  - assert (Hr : reach s k = Some e) by (unfold reach; rewrite R; reflexivity).
+    assert (Ha : abs_lookup s k = e_load s e) by (unfold abs_lookup; rewrite Hr; reflexivity).
+    rewrite Ha. unfold tryLoadOrStore. unfold e_load. destruct (get_ent s e) eqn:G.
+    + do 3 eexists. split; [reflexivity|]. split.
+      * apply WF_set_ent; [exact H|congruence|discriminate|left; eauto].
+      * split; [reflexivity|]. split; [reflexivity|].
+        intros k'. apply (abs_lookup_set_ent s e (PVal v) k k' H Hr).
+    + destruct (unexpunge_spec s k e H R) as (s1 & U & W1 & R1 & G1 & A1). rewrite U. simpl.
+      rewrite G in G1. rewrite G1.
+      do 3 eexists. split; [reflexivity|]. split.
+      * apply WF_set_ent; [exact W1|congruence|discriminate|left; eauto].
+      * split; [reflexivity|]. split; [reflexivity|].
+        intros k'. rewrite (abs_lookup_set_ent s1 e (PVal v) k k' W1).
+        -- rewrite A1. reflexivity.
+        -- unfold reach. rewrite R1, R. reflexivity.
+    + do 3 eexists. split; [reflexivity|]. split; [exact H|]. auto.
+  - destruct (dirty_lookup s k) as [e|] eqn:D.
+    + destruct (dirty_lookup_Some s k e H D) as (Ham & _ & [x G]); [exact R|].
+      assert (Ha : abs_lookup s k = Some x).
+      { unfold abs_lookup, reach. rewrite R, Ham, D. unfold e_load. rewrite G. reflexivity. }
+      rewrite Ha. unfold tryLoadOrStore. rewrite G.
+      destruct (missLocked_spec s H Ham) as (W & A & _).
+      do 3 eexists. split; [reflexivity|]. split; [exact W|]. auto.
+    + assert (Ha : abs_lookup s k = None).
+      { unfold abs_lookup, reach. rewrite R. destruct (amended s); [rewrite D|]; reflexivity. }
+      rewrite Ha. destruct (insert_new_spec s k v H R) as (s1 & I & W1 & A1). rewrite I. simpl.
+      do 3 eexists. split; [reflexivity|]. split; [exact W1|]. auto.
+Qed.
+
+Lemma LoadAndDelete_spec s k : WF s ->
+  WF (LoadAndDelete s k).1 /\ (LoadAndDelete s k).2 = abs_lookup s k /\
+  forall k', abs_lookup (LoadAndDelete s k).1 k' = if decide (k' = k) then None else abs_lookup s k'.
+Proof.
+  intros H.
+  assert (Triv : abs_lookup s k = None ->
+    WF s /\ None = abs_lookup s k /\ forall k', abs_lookup s k' = if decide (k' = k) then None else abs_lookup s k').
+  { intros Ha. split; [exact H|]. split; [congruence|]. intros k'. destruct (decide (k' = k)); congruence. }
+  unfold LoadAndDelete. destruct (read_m s !! k) as [e|] eqn:R.
+  - assert (Hr : reach s k = Some e) by (unfold reach; rewrite R; reflexivity).
+    assert (Ha : abs_lookup s k = e_load s e) by (unfold abs_lookup; rewrite Hr; reflexivity).
+    unfold e_delete. unfold e_load in Ha. destruct (get_ent s e) eqn:G; simpl; auto.
+    split; [|split; [congruence|]].
+    + apply WF_set_ent; [exact H|congruence|discriminate|right].
+      intros d k0 Ed Hk. wf_some H Ed. destruct (HB _ _ Hk) as (_ & _ & _ & B4).
+      rewrite <- (B4 _ R). congruence.
+    + intros k'. apply (abs_lookup_set_ent s e PNil k k' H Hr).
+  - destruct (amended s) eqn:Ham.
+    2:{ simpl. apply Triv. unfold abs_lookup, reach. rewrite R, Ham. reflexivity. }
+    destruct (dirty s) as [d|] eqn:Ed.
+    2:{ wf_none H Ed. congruence. }
+    cbv zeta. destruct (dirty_delete_spec s d k H Ed R) as (W1 & Ham1 & E1 & A1 & U1).
+    rewrite Ham in Ham1.
+    destruct (missLocked_spec _ W1 Ham1) as (W2 & A2 & E2 & U2).
+    set (s2 := missLocked (dirty_delete s k)) in *.
+    assert (A12 : forall k', abs_lookup s2 k' = if decide (k' = k) then None else abs_lookup s k').
+    { intros k'. rewrite A2. apply A1. }
+    assert (Ha : abs_lookup s k = match dirty_lookup s k with Some e => e_load s e | None => None end).
+    { unfold abs_lookup, reach. rewrite R, Ham. reflexivity. }
+    destruct (dirty_lookup s k) as [e|] eqn:D.
+    + unfold e_delete. assert (G2 : get_ent s2 e = get_ent s e).
+      { unfold get_ent. rewrite E2, E1. reflexivity. }
+      rewrite G2. unfold e_load in Ha.
+      assert (U : unref s2 e). { apply U2, U1. unfold dirty_lookup in D. rewrite Ed in D. exact D. }
+      destruct (get_ent s e) eqn:G; simpl; auto.
+      split; [apply WF_set_ent_unref; assumption|]. split; [congruence|].
+      intros k'. rewrite abs_lookup_set_ent_unref by exact U. apply A12.
+    + simpl. auto.
+Qed.
+
+(* ---- Range ---- *)
+Definition live_pairs (s : mstate) (order : list Z) : list (Z * Z) :=
+  omap (fun k => match abs_lookup s k with Some v => Some (k, v) | None => None end) order.
+
+Lemma live_pairs_cons s k l :
+  live_pairs s (k :: l) = match abs_lookup s k with Some v => (k, v) :: live_pairs s l | None => live_pairs s l end.
+Proof. unfold live_pairs. simpl. destruct (abs_lookup s k); reflexivity. Qed.
+
+Lemma live_pairs_ext s s' l : (forall k, abs_lookup s' k = abs_lookup s k) -> live_pairs s' l = live_pairs s l.
+Proof.
+  intros A. induction l as [|k l IH]; [reflexivity|]. rewrite !live_pairs_cons, A, IH. reflexivity.
+Qed.
+
+Lemma range_promotion_spec s : WF s ->
+  WF (range_promotion s) /\ amended (range_promotion s) = false /\
+  forall k, abs_lookup (range_promotion s) k = abs_lookup s k.
+Proof.
+  intros H. unfold range_promotion. destruct (amended s) eqn:Ham; [|auto].
+  destruct (dirty s) as [d|] eqn:Ed.
+  2:{ wf_none H Ed. congruence. }
+  simpl. destruct (promote_spec s d H Ed) as [W A]. auto.
+Qed.
+
+Lemma Range_loop_spec s : amended s = false -> forall order stop,
+  Range_loop s order stop =
+  match stop with None => live_pairs s order | Some n => firstn n (live_pairs s order) end.
+Proof.
+  intros Ham. induction order as [|k order IH]; intros stop.
+  - destruct stop as [[|n]|]; reflexivity.
+  - cbn [Range_loop]. rewrite live_pairs_cons, (abs_lookup_clean s k Ham).
+    destruct (read_m s !! k) as [e|]; [|apply IH].
+    destruct (e_load s e) as [v|]; [|apply IH].
+    destruct stop as [[|[|n]]|].
+    + reflexivity.
+    + reflexivity.
+    + rewrite IH. reflexivity.
+    + rewrite IH. reflexivity.
+Qed.
+
+Lemma Range_spec s order stop : WF s -> let s' := (Range s order stop).1 in
+  WF s' /\ (forall k', abs_lookup s' k' = abs_lookup s k') /\
+  (forall k v, abs_lookup s k = Some v -> is_Some (read_m s' !! k)) /\
+  (Range s order stop).2 = match stop with None => live_pairs s order | Some n => firstn n (live_pairs s order) end.
+Proof.
+  intros H. unfold Range. cbn [fst snd]. destruct (range_promotion_spec s H) as (W & Ham & A).
+  split; [exact W|]. split; [exact A|]. split.
+  - intros k v Hk. rewrite <- A, (abs_lookup_clean _ k Ham) in Hk.
+    destruct (read_m (range_promotion s) !! k); [eauto|discriminate].
+  - rewrite (Range_loop_spec _ Ham). rewrite (live_pairs_ext s _ order A). reflexivity.
+Qed.
+
+(* ---- abs_map is the finite map of abs_lookup ---- *)
+Lemma list_to_map_omap (g : Z -> option Z) l k :
+  (list_to_map (omap (fun k => match g k with Some v => Some (k, v) | None => None end) l) : gmap Z Z) !! k
+  = if decide (k ∈ l) then g k else None.
+Proof.
+  induction l as [|a l IH].
+  - simpl. case_decide as Hin; [apply elem_of_nil in Hin; contradiction|]. apply lookup_empty.
+  - simpl. destruct (g a) as [v|] eqn:Ga.
+    + simpl. destruct (decide (k = a)) as [->|N].
+      * rewrite lookup_insert. case_decide as Hin; [congruence|]. exfalso. apply Hin, elem_of_cons. auto.
+      * rewrite lookup_insert_ne by congruence. rewrite IH.
+        case_decide as Hin; case_decide as Hin'; try reflexivity; exfalso.
+        -- apply Hin', elem_of_cons. auto.
+        -- apply elem_of_cons in Hin' as [?|?]; auto.
+    + rewrite IH. case_decide as Hin; case_decide as Hin'; try reflexivity.
+      * exfalso. apply Hin', elem_of_cons. auto.
+      * apply elem_of_cons in Hin' as [->|?]; [congruence|contradiction].
+Qed.
+
+Lemma abs_lookup_all_keys s k v : abs_lookup s k = Some v -> k ∈ all_keys s.
+Proof.
+  unfold abs_lookup, reach, dirty_lookup, all_keys. intros A. apply elem_of_app.
+  destruct (read_m s !! k) as [e|] eqn:R.
+  - left. change (map fst (map_to_list (read_m s))) with (fst <$> map_to_list (read_m s)).
+    apply (elem_of_list_fmap_1 fst _ (k, e)). apply elem_of_map_to_list. exact R.
+  - right. destruct (amended s); [|discriminate]. destruct (dirty s) as [d|]; [|discriminate].
+    destruct (d !! k) as [e|] eqn:Hk; [|discriminate].
+    change (map fst (map_to_list d)) with (fst <$> map_to_list d).
+    apply (elem_of_list_fmap_1 fst _ (k, e)). apply elem_of_map_to_list. exact Hk.
+Qed.
+
+Lemma abs_map_lookup s k : WF s -> abs_map s !! k = abs_lookup s k.
+Proof.
+  intros _. unfold abs_map. rewrite list_to_map_omap. destruct (decide (k ∈ all_keys s)) as [|N]; [reflexivity|].
+  destruct (abs_lookup s k) as [v|] eqn:A; [|reflexivity]. exfalso. apply N. eapply abs_lookup_all_keys; eauto.
 Qed.
